@@ -142,6 +142,12 @@ func ruleGuardIndex(c *Ctx, r *R) {
 							s, need, what = x.X, k+1, fmt.Sprintf("[%d]", k)
 						}
 					}
+				case *ssa.Index: // s[k] on a string (go/ssa uses Index, not Lookup, for strings)
+					if isText(x.X.Type()) {
+						if k, isC := constInt(x.Index); isC {
+							s, need, what = x.X, k+1, fmt.Sprintf("[%d]", k)
+						}
+					}
 				case *ssa.IndexAddr:
 					if isText(x.X.Type()) {
 						if k, isC := constInt(x.Index); isC {
